@@ -99,6 +99,9 @@ type histFam struct {
 	implTok  func(o hOut) string
 	modelTok func(ans string) string
 	pathOf   func(st *hStep, at *hAttempt) string // for the flip signature
+	// seq holds the whole session against the model's sequence semantics (Model.Access.run / Types.storeRun /
+	// Inst.newRun): outcomes in order and the state at every observation
+	seq func(c *vh.Ctx, m *vh.Model, steps []*hStep, outs map[string]hOut, obs map[int]string)
 }
 
 type histRun struct {
@@ -278,6 +281,9 @@ func runHist(c *vh.Ctx, m *vh.Model, fam *histFam, quiet bool) []hViol {
 		}
 		fam.observe(r, st, got, ob)
 	}
+	if fam.seq != nil && m != nil && !quiet && out.Kind == "ok" {
+		fam.seq(c, m, steps, outs, obs)
+	}
 	return r.viols
 }
 
@@ -327,6 +333,23 @@ type accData struct {
 	w     int
 	obj   string // PHP variable of the observed object
 	fresh bool   // the attempt runs on a fresh object (unset probes)
+	oid   int    // the model's id of the observed object (a fresh object gets a fresh id)
+}
+
+// keys of the model store: cells 0..2 = the statics, 8*oid+{0,1,2} = the instance members; counters 0 = the
+// static one, oid = the instance one
+func (d accData) item(f *fixture) string {
+	mi := map[string]int{"pub": 0, "prot": 1, "priv": 2}[d.x.Mod]
+	key := 0
+	switch d.x.Probe.Eff {
+	case "p":
+		key = 8*d.oid + mi
+	case "sp":
+		key = mi
+	case "c":
+		key = d.oid
+	}
+	return "a," + strings.ReplaceAll(f.modelSite(d.x), "\t", ",") + "," + d.x.modelOp() + "," + strconv.Itoa(key) + "," + strconv.Itoa(d.w)
 }
 
 type accState struct {
@@ -385,10 +408,17 @@ func buildAccHist(f *fixture, only string) *histFam {
 	var used []cell
 	runners := map[string]bool{}
 	var objDecl strings.Builder
+	oids := map[string]int{}
+	nextOid := 0
 	mk := func(g int, ord, label string, x cell) hAttempt {
 		w++
 		objVar := fmt.Sprintf("$o%s%d", ord, g)
 		d := accData{x: x, w: w, obj: objVar, fresh: x.Probe.Op == "unset"}
+		if d.fresh || oids[objVar] == 0 {
+			nextOid++
+			oids[objVar] = nextOid
+		}
+		d.oid = oids[objVar]
 		code := "$v = " + accCall(f, x, objVar, w) + ";"
 		if d.fresh {
 			code = fmt.Sprintf("%s = new %s(); ", objVar, f.n(accObjRole(x))) + code
@@ -540,7 +570,61 @@ func buildAccHist(f *fixture, only string) *histFam {
 			}
 		}
 	}
+	fam.seq = func(c *vh.Ctx, m *vh.Model, steps []*hStep, outs map[string]hOut, obs map[int]string) {
+		var items, want []string
+		var grp []int
+		for id, st := range steps {
+			var last accData
+			for k := range st.Attempts {
+				last = st.Attempts[k].Data.(accData)
+				items = append(items, last.item(f))
+				want = append(want, outs[fmt.Sprintf("%d.%d", id, k)].tok())
+				grp = append(grp, st.Group)
+			}
+			o := 8 * last.oid
+			items = append(items, fmt.Sprintf("o,%d.%d.%d.0.1.2,%d.0", o, o+1, o+2, last.oid))
+			// observed `p,p,p,cnt:sp,sp,sp,scnt` in the model's order; an unset member prints as ""
+			w := "?"
+			if parts := strings.Split(obs[id], ":"); len(parts) == 2 {
+				iv, sv := strings.Split(parts[0], ","), strings.Split(parts[1], ",")
+				if len(iv) == 4 && len(sv) == 4 {
+					z := func(x string) string {
+						if x == "" {
+							return "0"
+						}
+						return x
+					}
+					w = strings.Join([]string{z(iv[0]), z(iv[1]), z(iv[2]), sv[0], sv[1], sv[2]}, ".") + "|" + iv[3] + "." + sv[3]
+				}
+			}
+			want = append(want, w)
+			grp = append(grp, st.Group)
+		}
+		ans, err := m.Ask("seq\t" + H + "\t" + strings.Join(items, ";"))
+		if err != nil {
+			c.Mismatch(fam.cas(""), "", err.Error(), "model driver failed (seq)")
+			return
+		}
+		got := strings.Split(ans, " ")
+		if len(got) != len(want) {
+			c.Mismatch(fam.cas(""), fmt.Sprintf("%d items", len(want)), firstN(ans, 200), "Model.Access.run answered a different number of items")
+			return
+		}
+		c.Res.Traces++
+		for i := range want {
+			if got[i] != want[i] {
+				c.Mismatch(fam.cas(fam.groups[grp[i]]), want[i], got[i], fmt.Sprintf("the session as one sequence (Model.Access.run): item %d (%s) differs", i, items[i]))
+			}
+		}
+	}
 	return fam
+}
+
+func firstN(s string, n int) string {
+	if len(s) > n {
+		return s[:n]
+	}
+	return s
 }
 
 func accObjRole(x cell) string {
@@ -752,6 +836,59 @@ func buildTyHist(tag string, only string) *histFam {
 		}
 		slots[d.slot] = obs
 	}
+	fam.seq = func(c *vh.Ctx, m *vh.Model, steps []*hStep, outs map[string]hOut, obs map[int]string) {
+		type plan struct {
+			d       tyData
+			vs      []string
+			verdict []string
+			slot    string
+			group   int
+		}
+		plans := map[string]*plan{}
+		var order []string
+		for id, st := range steps {
+			k := fmt.Sprintf("%d/%s", st.Group, st.Order)
+			p := plans[k]
+			if p == nil {
+				p = &plan{d: st.Attempts[0].Data.(tyData), group: st.Group}
+				plans[k] = p
+				order = append(order, k)
+			}
+			for a := range st.Attempts {
+				p.vs = append(p.vs, vals[st.Attempts[a].Data.(tyData).val].Model)
+				p.verdict = append(p.verdict, fam.implTok(outs[fmt.Sprintf("%d.%d", id, a)]))
+			}
+			p.slot = obs[id]
+		}
+		var lines []string
+		for _, k := range order {
+			p := plans[k]
+			lines = append(lines, "bseq\t"+typeH+"\t"+modelBoundary(p.d.b)+"\t"+strings.Join(p.vs, ".")+"\t"+tys[p.d.ty].Model)
+		}
+		ans, err := m.AskBatch(lines)
+		if err != nil {
+			c.Mismatch(fam.cas(""), "", err.Error(), "model driver failed (bseq)")
+			return
+		}
+		tagOf := map[string]string{"-": "null"}
+		for _, v := range vals {
+			tagOf[v.Model] = at(v.Tag)
+		}
+		for i, k := range order {
+			p := plans[k]
+			c.Res.Traces++
+			want := strings.Join(p.verdict, ".")
+			parts := strings.SplitN(ans[i], "|", 2)
+			if parts[0] != want {
+				c.Mismatch(fam.cas(fam.groups[p.group]), want, ans[i], "the crossings of one slot as one sequence (Model.Types.storeRun): verdicts differ: "+lines[i])
+				continue
+			}
+			// the slot afterwards (a static slot is shared by both orders: verdicts only)
+			if isStore(p.d.b) && p.d.b != "staticStore" && len(parts) == 2 && tagOf[parts[1]] != p.slot {
+				c.Mismatch(fam.cas(fam.groups[p.group]), p.slot, parts[1], "the crossings of one slot as one sequence (Model.Types.storeRun): the slot content afterwards differs: "+lines[i])
+			}
+		}
+	}
 	return fam
 }
 
@@ -767,6 +904,7 @@ type instData struct {
 	x    InstCase
 	kid  bool
 	news bool // the attempt is a `new` (runs a constructor when it succeeds)
+	mid  int  // the class in the group's model world (0: not a `new`)
 }
 
 // partner: the complete sibling of a cell (same ancestors, every method provided), the legitimate `new`
@@ -818,6 +956,7 @@ func buildInstHist(tag string, stride, off int, only string) *histFam {
 		}
 	}
 	cases := instCases(tag)
+	var worlds []string // per group
 	for id, x := range cases {
 		gk := strconv.Itoa(id) + ":" + x.key()
 		if only != "" {
@@ -839,6 +978,20 @@ func buildInstHist(tag string, stride, off int, only string) *histFam {
 		pw, pc := part.modelWorld()
 		mw, mc := x.modelWorld()
 		kw, kc := x.kidWorld()
+		// the group's world: the cell's classes (4, 5), the empty subclass (10), the partner's (11, 12)
+		bw, ifs := instBaseWorld()
+		own, ownID := x.classEntries(4, 5)
+		bw = append(bw, own...)
+		if x.Spec == "" {
+			bw = append(bw, "10,5,-,0,-,-")
+		}
+		partID := 0
+		if hasPart {
+			pe, id := part.classEntries(11, 12)
+			bw = append(bw, pe...)
+			partID = id
+		}
+		worlds = append(worlds, strings.Join(bw, ";")+"/"+ifs)
 		for _, ord := range []string{"a", "b"} {
 			name := fixed
 			sfx := fmt.Sprintf("%s_%d%s", tag, id, ord)
@@ -855,7 +1008,7 @@ func buildInstHist(tag string, stride, off int, only string) *histFam {
 			fmt.Fprintf(&sb, "$n0%s = function() { return new %s(); };\n$mk%s = new Mk%s();\n", sfx, name, sfx, sfx)
 			nw := func(label, site, expr string) hAttempt {
 				return hAttempt{Site: site, Label: label, Code: "$v = " + expr + ";", Deny: b2i(!want),
-					Model: fmt.Sprintf("inst\t%s\t%d", mw, mc), Data: instData{x, false, true}}
+					Model: fmt.Sprintf("inst\t%s\t%d", mw, mc), Data: instData{x, false, true, ownID}}
 			}
 			s0 := func(l string) hAttempt { return nw(l, "closure", "$n0"+sfx+"()") }
 			s1 := func(l string) hAttempt { return nw(l, "function", "fmk"+sfx+"()") }
@@ -864,16 +1017,16 @@ func buildInstHist(tag string, stride, off int, only string) *histFam {
 			s4 := func(l string) hAttempt { return nw(l, "static-method", "Mk"+sfx+"::smk()") }
 			kid := func() hAttempt {
 				return hAttempt{Site: "kid", Label: "kid", Code: "$v = new K" + sfx + "();", Deny: b2i(!want),
-					Model: fmt.Sprintf("inst\t%s\t%d", kw, kc), Data: instData{x, true, true}}
+					Model: fmt.Sprintf("inst\t%s\t%d", kw, kc), Data: instData{x, true, true, 10}}
 			}
 			legit := func() []hAttempt {
 				var as []hAttempt
 				if hasPart {
 					as = append(as, hAttempt{Site: "partner", Label: "legit", Code: "$v = new " + gname + "();", Deny: 0,
-						Model: fmt.Sprintf("inst\t%s\t%d", pw, pc), Data: instData{part, false, true}})
+						Model: fmt.Sprintf("inst\t%s\t%d", pw, pc), Data: instData{part, false, true, partID}})
 				}
 				if fixed == "" {
-					as = append(as, hAttempt{Site: "ping", Label: "legit-static", Code: "$v = " + name + "::ping();", Deny: 0, Data: instData{x, false, false}})
+					as = append(as, hAttempt{Site: "ping", Label: "legit-static", Code: "$v = " + name + "::ping();", Deny: 0, Data: instData{x, false, false, 0}})
 				}
 				return as
 			}
@@ -949,6 +1102,59 @@ func buildInstHist(tag string, stride, off int, only string) *histFam {
 		r.report(sig, fmt.Sprintf("constructors ran %s times, expected %d = the number of successful `new` (a refused `new` must not run the constructor; group %s, order %s)", obs, ctor, fam.groups[st.Group], st.Order), st.Group)
 		if n, err := strconv.Atoi(obs); err == nil {
 			ctor = n
+		}
+	}
+	fam.seq = func(c *vh.Ctx, m *vh.Model, steps []*hStep, outs map[string]hOut, obs map[int]string) {
+		type plan struct {
+			ns, kinds []string
+			live      int
+			group     int
+		}
+		plans := map[string]*plan{}
+		var order []string
+		for id, st := range steps {
+			k := fmt.Sprintf("%d/%s", st.Group, st.Order)
+			p := plans[k]
+			if p == nil {
+				p = &plan{group: st.Group}
+				plans[k] = p
+				order = append(order, k)
+			}
+			for a := range st.Attempts {
+				d := st.Attempts[a].Data.(instData)
+				if d.mid == 0 {
+					continue
+				}
+				o := outs[fmt.Sprintf("%d.%d", id, a)]
+				p.ns = append(p.ns, strconv.Itoa(d.mid))
+				p.kinds = append(p.kinds, kindOf(o))
+				if o.ok {
+					p.live++
+				}
+			}
+		}
+		var lines []string
+		for _, k := range order {
+			p := plans[k]
+			lines = append(lines, "iseq\t"+worlds[p.group]+"\t"+strings.Join(p.ns, "."))
+		}
+		ans, err := m.AskBatch(lines)
+		if err != nil {
+			c.Mismatch(fam.cas(""), "", err.Error(), "model driver failed (iseq)")
+			return
+		}
+		for i, k := range order {
+			p := plans[k]
+			c.Res.Traces++
+			want := strings.Join(p.kinds, ".")
+			parts := strings.SplitN(ans[i], "|", 2)
+			live := 0
+			if len(parts) == 2 && parts[1] != "" {
+				live = len(strings.Split(parts[1], "."))
+			}
+			if parts[0] != want || live != p.live {
+				c.Mismatch(fam.cas(fam.groups[p.group]), fmt.Sprintf("%s|%d objects", want, p.live), ans[i], "the `new` attempts of one class as one sequence (Model.Inst.newRun) differ: "+lines[i])
+			}
 		}
 	}
 	return fam
